@@ -55,7 +55,7 @@ func claimKeyOK(k *Term) (ok bool, why string) {
 func finalityRel(p *Path, upto int, outVal, cfgVal string) (rel uint8, n int) {
 	isNow := func(t *Term) bool {
 		k := t.Key()
-		return k == "(sdk.Context).BlockTime(sdk.UnwrapSDKContext(ctx))" || k == "(time.Time).Unix((sdk.Context).BlockTime(sdk.UnwrapSDKContext(ctx)))"
+		return k == "(sdk.Context).BlockTime(ctx)" || k == "(time.Time).Unix((sdk.Context).BlockTime(ctx))"
 	}
 	dl := "(time.Time).Add(" + outVal + ".L1BlockTime, " + cfgVal + ".FinalizationPeriod)"
 	isDeadline := func(t *Term) bool {
@@ -261,6 +261,12 @@ func propC02(c *Ctx) {
 			o.Fail(c.W.Pos(fn.Pos()), "no path reaches the payout (anchor floor)", nil)
 		}
 	})
+	// "claimed exactly if paid": the claim record and the payout are committed together, so no
+	// error of the handler's fallible calls (the bank send above all) may be dropped
+	c.Rule("C02.R7", func() {
+		errorDiscipline(c, "C02.R7", "ophost.FinalizeTokenWithdrawal", hostHandler(c, "FinalizeTokenWithdrawal"), PO{Params: hParams, Visits: 3})
+	})
+
 	c.Rule("C02.R3", func() {
 		c.writersTable("C02.R3", "ophost/keeper.Keeper", "ProvenWithdrawals", setOf("Set"), []string{"(ophost/keeper.MsgServer).FinalizeTokenWithdrawal", "(ophost.AppModule).InitGenesis"})
 		c.noCollSites("C02.R3", "ophost/keeper.Keeper", "ProvenWithdrawals", setOf("Remove", "Clear"))
@@ -729,7 +735,7 @@ func propC05(c *Ctx) {
 					o2.Fail(c.evPos(ev), "output stored under "+trunc(k.Key(), 160)+", want Join(req.BridgeId, next output index)", c.Dump(p, i))
 				}
 				v := ev.Call.Args[3]
-				if got := project(v, "L1BlockTime", nil).Key(); got != "(sdk.Context).BlockTime(sdk.UnwrapSDKContext(ctx))" {
+				if got := project(v, "L1BlockTime", nil).Key(); got != "(sdk.Context).BlockTime(ctx)" {
 					o2.Fail(c.evPos(ev), "stored L1BlockTime is "+trunc(got, 120)+", want ctx.BlockTime()", c.Dump(p, i))
 				}
 			}
@@ -807,7 +813,7 @@ func propC05(c *Ctx) {
 func finalityRelK(p *Path, upto int, outVal, cfgVal string) (uint8, int) {
 	isNow := func(t *Term) bool {
 		k := t.Key()
-		return k == "(sdk.Context).BlockTime(sdk.UnwrapSDKContext(ctx))" || k == "(time.Time).Unix((sdk.Context).BlockTime(sdk.UnwrapSDKContext(ctx)))"
+		return k == "(sdk.Context).BlockTime(ctx)" || k == "(time.Time).Unix((sdk.Context).BlockTime(ctx))"
 	}
 	dl := "(time.Time).Add(" + outVal + ".L1BlockTime, " + cfgVal + ".FinalizationPeriod)"
 	isDeadline := func(t *Term) bool {
